@@ -113,6 +113,7 @@ def run(ctx, rep):
         bs = [b for b in F.bodies if b.promoted is None and b.path == "<metadata::BlockBits as bitstream_io::write::Counter>::" + m]
         for b in bs:
             cl = [b] + F.closures_of(b)
+            cl += fn_value_bodies(F, cl)
             mxb = st.get("metadata::BlockBits::MAX", {}).get("v")
             le = [1 for c in cl for bl in c.blocks for s in bl["s"] if s["rv"]["r"] == "bin" and ((s["rv"]["op"] == "Le" and const_val(c, s["rv"]["b"]) == mxb) or (s["rv"]["op"] == "Lt" and const_val(c, s["rv"]["b"]) == (mxb or 0) + 1) or
                                                                                                   (s["rv"]["op"] == "Gt" and const_val(c, s["rv"]["b"]) == mxb) or (s["rv"]["op"] == "Ge" and const_val(c, s["rv"]["a"]) == mxb))]
@@ -171,7 +172,7 @@ def run(ctx, rep):
                             rp = root_place(rb, st_["rv"]["o"]) if st_["rv"]["r"] == "use" else None
                             stores.append((bi, st_, rp is not None and place_fields(rp)[-1:] == ["last"]))
                     rv = st_["rv"]
-                    if st_["d"]["l"] == 0 and not st_["d"]["p"] and rv["r"] == "agg" and rv.get("var") == "Ok" and "metadata::Block" in rb.locals[0]["ty"] and "Option" not in rb.locals[0]["ty"].split("Result")[0]:
+                    if not st_["d"]["p"] and rv["r"] == "agg" and rv.get("var") == "Ok" and re.match(r"^std::result::Result<metadata::Block,", rb.local_ty(st_["d"]["l"])):
                         n_ok += 1
                         f = pf.get(bi) or frozenset()
                         good = any(x[0] == "cmp" and x[1] == "Eq" and "const:0" in (x[2], x[3]) for x in f)
@@ -190,8 +191,14 @@ def run(ctx, rep):
                         for kk, c in origins(b, x["ops"][-1]):
                             if kk == "call" and re.search(r"Ord::min$|::min$", callee_name(c)):
                                 a0, a1 = root_place(b, c["a"][0]), backward_slice(b, c["a"][1])
-                                good = a0 is not None and "size" in place_fields(a0) and any(re.search(r"::len$", callee_name(cc)) for cc in a1["calls"]) or \
-                                    "size" in backward_slice(b, c["a"][1])["fields"] and any(re.search(r"::len$", callee_name(cc)) for cc in backward_slice(b, c["a"][0])["calls"])
+                                def own_field(o):       # the limiter's own counter (self.<field>), whatever it is called
+                                    rp_ = root_place(b, o)
+                                    return rp_ is not None and rp_["l"] == 1 and len(place_fields(rp_)) == 1
+
+                                def buf_len(o):
+                                    sl_ = backward_slice(b, o)
+                                    return any(re.search(r"::len$", callee_name(cc)) for cc in sl_["calls"]) and 2 in sl_["args"]
+                                good = (own_field(c["a"][0]) and buf_len(c["a"][1])) or (own_field(c["a"][1]) and buf_len(c["a"][0]))
         rep.check("C11.frame", "reader: a block's parser can read at most min(remaining block size, buffer length) bytes", good, loc_of(b), "",
                   "the per-block reader no longer clamps reads to the remaining block size: a block parser can run past its block")
     if not lr:
@@ -290,9 +297,46 @@ def run(ctx, rep):
                         set_sites[flag] = kf
                         rep.check("C11.uniq", "%s: a single-instance flag is set on the path where that same flag was found unset" % (strip_generics(fn_path) or fn_path), tested, b.loc(s["sp"]), flag,
                                   "flag %s is set on a path that tested another flag: single-instance tracking of reader and writer disagree; facts: %s" % (flag, fact_str(f)))
+        # table form: each once-only kind selects a pair (&mut its flag, its duplicate error); one generic test-and-set
+        # then works on whichever pair was selected.  The pairing and the kind each pair is built for are the rule then.
+        KIND_OF = {"seektable_read": "SeekTable", "vorbiscomment_read": "VorbisComment", "png_read": "Png32x32", "icon_read": "GeneralFileIcon"}
+        paired_errs, table_bodies = set(), set()
         for b in region(F, bs[0]):
             pf = ok.path_facts(b)
-            for err in sorted(errs_):
+            for bi, bl in enumerate(b.blocks):
+                for s in bl["s"]:
+                    rv = s["rv"]
+                    if rv["r"] != "agg" or rv.get("ak") != "tuple" or len(rv["ops"]) != 2 or b.local_ty(s["d"]["l"]).replace(" ", "") != "(&mutbool,Error)":
+                        continue
+                    flag = None
+                    for k, x in origins(b, rv["ops"][0]):
+                        if k == "ref":
+                            flag = (place_fields(x["p"])[-1:] or [b.local_name(x["p"]["l"])])[0]
+                    errv = [x.get("var") for k, x in origins(b, rv["ops"][1]) if k == "agg" and x.get("adt") == "Error"]
+                    kinds = {x[0] for x in kind_facts(pf.get(bi, TOP) if pf.get(bi, TOP) is not TOP else None)}
+                    n += 1
+                    good = flag in pairs_expected and errv == [pairs_expected[flag]] and KIND_OF.get(flag) in kinds
+                    rep.check("C11.uniq", "%s: the flag of a once-only kind is paired with that kind's duplicate error, on that kind's arm" % (strip_generics(fn_path) or fn_path), good, b.loc(s["sp"]), "%s / %s / %s" % (flag, errv, sorted(kinds)),
+                              "flag %s is paired with %s on the arm of %s: single-instance tracking would test one block kind and report or set another" % (flag, errv, sorted(kinds)))
+                    if errv:
+                        paired_errs.add(errv[0])
+                        table_bodies.add(b.path)
+            if b.path in table_bodies:
+                # the generic step: the selected flag is tested, an Err leaves on the set edge, the flag is set on the other
+                tests = [(bi, s) for bi, bl in enumerate(b.blocks) for s in bl["s"] if s["d"]["p"] and s["d"]["p"][-1] == "*" and s["rv"]["r"] == "use" and op_int(s["rv"]["o"]) == 1 and "bool" in b.local_ty(s["d"]["l"])]
+                goodg = False
+                for bi, s in tests:
+                    d = ok.desc_place(b, s["d"])
+                    f = pf.get(bi, TOP)
+                    unset_edge = f is not TOP and any(x[0] == "flag" and x[1] is False and x[2] == d for x in (f or ()))
+                    err_edge = any(s2["rv"]["r"] == "agg" and s2["rv"].get("adt") == "std::result::Result" and s2["rv"].get("var") == "Err" and
+                                   pf.get(bj, TOP) is not TOP and any(x[0] == "flag" and x[1] is True and x[2] == d for x in (pf.get(bj) or ()))
+                                   for bj, bl2 in enumerate(b.blocks) for s2 in bl2["s"])
+                    goodg = goodg or (unset_edge and err_edge)
+                rep.check("C11.uniq", "%s: the selected flag is set where it was found unset and an error leaves where it was found set" % (strip_generics(fn_path) or fn_path), goodg, loc_of(b), "%d stores through a flag reference" % len(tests))
+        for b in region(F, bs[0]):
+            pf = ok.path_facts(b)
+            for err in sorted(errs_ - paired_errs):
                 for bi0, s in agg_sites(b, "Error", err):
                     # the error is raised where it is wrapped in Err(..): the value may be built earlier and handed along
                     raise_bis, frontier, seen_l = [], {s["d"]["l"]}, set()
